@@ -332,7 +332,7 @@ def c08(tier):
                        '(corpus templates incl. marker operators, synthetic ones); deciding it for all templates is '
                        'translation validation, a different technique'],
         _account_hist, extra_cov=_extra_hist,
-        pool_kwargs=dict(HIST_POOL_THOROUGH, n_ops=500, n_tabled=-1) if tier == 'thorough' else dict(HIST_POOL, n_ops=50, n_tabled=50),
+        pool_kwargs=dict(HIST_POOL_THOROUGH, n_ops=500, n_tabled=-1) if tier == 'thorough' else dict(HIST_POOL, n_ops=64, n_tabled=50),
         design_ref='5.3')
 
 
